@@ -173,7 +173,7 @@ def for_range(ctx, fornode):
     if it.get("k") != "Range":
         return None
     pat = fornode["pat"]
-    hi = _collapse_min(ctx, ctx.term(it["hi"]), fornode)
+    hi = _known_len(ctx, _collapse_min(ctx, ctx.term(it["hi"]), fornode))
     if pat.get("k") == "Wild":
         return (("wild", fornode.get("id")), ctx.term(it["lo"]), hi, bool(it.get("incl")), rev)
     if pat.get("k") != "Bind":
